@@ -91,6 +91,12 @@ impl DecisionTracker {
         (decision, self.map.level(top_decision.variable))
     }
 
+    /// Marks the decision that was returned last by [`Self::next_unpropagated`] as not
+    /// propagated (its propagation was interrupted by a conflict).
+    pub(crate) fn repropagate_last(&mut self) {
+        self.propagate_index = self.propagate_index.saturating_sub(1);
+    }
+
     /// Returns the next decision in the log for which unit propagation still needs to run
     ///
     /// Side-effect: the decision will be marked as propagated
